@@ -24,7 +24,9 @@ def handle (op : String) (j : Json) : Except String Json := do
     let sub ← j.getObjValAs? (Array Nat) "sub"
     -- "local": the members of `sub` that hang below the target in its own fragment file (default: all)
     let loc := match j.getObjValAs? (Array Nat) "local" with | .ok a => a.toList | .error _ => sub.toList
-    match deleteAcrossFragments { elems := elems.toList, refs := refs } sub.toList loc with
+    -- "parentless": the elements to delete that have no parent element (roots of fragment files)
+    let orphan := match j.getObjValAs? (Array Nat) "parentless" with | .ok a => a.toList | .error _ => []
+    match checked elems.toList orphan (deleteAcrossFragments { elems := elems.toList, refs := refs } sub.toList loc) with
     | .error .notImplemented => pure (Json.str "NotImplementedError")
     | .error .other => pure (Json.str "Error")
     | .ok g =>
